@@ -235,6 +235,49 @@ def r01_3(ctx: Ctx) -> None:
                    form=f"matches={txt(matches)}; neighbour-tainted names={sorted(tainted)}")
 
 
+def r01_10(ctx: Ctx) -> None:
+    """ every kind of condition the parser lets inside cds(...) evaluates on the one gene alone when `local_only` is set:
+        its neighbour scan (the calls of details.in_range) is unreachable under local_only """
+    from ..flow import path_facts
+    parse = ctx.fn(RP, "Parser._parse_single_condition")
+    pcfg = CFG(parse)
+    gate = parse.args.args[1].arg if len(parse.args.args) > 1 else "allow_cds"
+    # classes built on a path that needs `allow_cds` cannot occur inside cds(...)
+    makers = {"_parse_minimum": "MinimumCondition", "_parse_score": "ScoreCondition", "_parse_cds": None, "_parse_group": None}
+    inside, outside = set(), set()
+    for call in calls(parse):
+        name = call_name(call).split(".")[-1]
+        cls = name if name.endswith("Condition") or name == "Conditions" else makers.get(name)
+        if cls is None:
+            continue
+        stmt = next(a for a in _ancestors(call) if isinstance(a, ast.stmt))
+        needs_gate = any(t and txt(e) == gate for e, t in path_facts(pcfg, stmt))
+        (outside if needs_gate else inside).add(cls)
+    if not inside:
+        raise AnalysisError("Parser._parse_single_condition: no condition class found that may occur inside cds(...)")
+    for cls in sorted(inside | outside):
+        try:
+            func = ctx.fn(RP, f"{cls}.is_satisfied")
+        except AnalysisError:
+            continue
+        cfg = CFG(func)
+        scans = [c for c in calls(func) if last_attr(c) == "in_range"]
+        if not scans:
+            continue
+        if cls in outside and cls not in inside:
+            ctx.ob("R01.10", RP, func, f"{cls}.is_satisfied", "neighbour scan of a condition kept out of cds()", True,
+                   "the parser only builds this condition where cds(...) is not being parsed", form=f"built under `{gate}`")
+            continue
+        for index, scan in enumerate(scans):
+            stmt = next(a for a in _ancestors(scan) if isinstance(a, ast.stmt))
+            guarded = any((txt(e) == "local_only" and not t) or (txt(e) == "not local_only" and t) for e, t in path_facts(cfg, stmt))
+            ctx.ob("R01.10", RP, scan, f"{cls}.is_satisfied", f"neighbour scan#{index} unreachable under local_only", guarded,
+                   "inside cds(...) a condition is decided on the one gene alone: neighbours are consulted only when "
+                   "local_only is not set",
+                   detail="" if guarded else "`cds(a and minscore(b, 50))` with g1 hitting a only and g2 (3 kb away) hitting b with score "
+                   "100 reports g1 as an anchor although no single gene satisfies the group", form=txt(scan))
+
+
 def r01_4_8(ctx: Ctx) -> None:
     qual = "CDSCondition.is_satisfied"
     func = ctx.fn(RP, qual)
@@ -674,3 +717,5 @@ def run(ctx: Ctx) -> None:
     r01_7(ctx)
     ctx.rule("R01.9", "the evaluation context contains every gene in range, with or without hits", floor=3)
     r01_9(ctx)
+    ctx.rule("R01.10", "conditions allowed inside cds(...) do not consult neighbours under local_only", floor=2)
+    r01_10(ctx)
